@@ -146,6 +146,11 @@ pub struct StationCfg {
     pub rejoin_keep_apps: Option<u8>,
     pub tx_done: TxDoneCfg,
     pub rx_chunk_us: u64,
+    /// Transmitter latency: the characters handed to `transmit_data` go onto the wire up to this
+    /// many µs later (a different, seed-determined amount for every transmission: driver, FIFO or
+    /// USB latency); `poll_transmission` stays true until they are really out.
+    #[serde(default)]
+    pub tx_lag_us: u64,
     /// Per-mille probability that a poll is immediately repeated at the same instant.
     pub dup_poll_pm: u32,
     /// Bytes in the PHY RX buffer at the first `set_online` (fault kind, C05/C06 only).
